@@ -207,7 +207,52 @@ func dumpBVH(h rendering.Hittable, b *strings.Builder, leaves map[int]rendering.
 		id := int(n1.X())
 		leaves[id] = h
 		fmt.Fprintf(b, "(BLeaf %d%%nat)", id)
+	case boxedSphere:
+		leaves[n.id] = h
+		fmt.Fprintf(b, "(BLeaf %d%%nat)", n.id)
+	case *rendering.Sphere:
+		id, ok := rawSphereID[n]
+		if !ok {
+			panic("c16 harness: unknown sphere in the BVH")
+		}
+		leaves[id] = h
+		fmt.Fprintf(b, "(BLeaf %d%%nat)", id)
 	default:
 		panic(fmt.Sprintf("c16 harness: unexpected BVH member %T", h))
 	}
+}
+
+// ---- the cells of the tree the implementation builds (for query generation relative to cell bounds) ----
+
+type fbox struct {
+	lo, hi [3]float64
+	n      int // elements in or below the cell
+}
+
+func arr3(v vector3.Float64) [3]float64 { return [3]float64{v.X(), v.Y(), v.Z()} }
+
+func cellsOf(d setDesc) (cells []fbox) {
+	defer func() {
+		if recover() != nil {
+			cells = nil
+		}
+	}()
+	_, tree := buildSet(d)
+	if tree == nil {
+		return nil
+	}
+	var walk func(t *trees.OctTree) int
+	walk = func(t *trees.OctTree) int {
+		v := reflect.ValueOf(t).Elem()
+		b := unexported(v, "bounds").Interface().(geometry.AABB)
+		cnt := unexported(v, "elements").Len()
+		ch := unexported(v, "children")
+		for i := 0; i < ch.Len(); i++ {
+			cnt += walk(ch.Index(i).Interface().(*trees.OctTree))
+		}
+		cells = append(cells, fbox{lo: arr3(b.Min()), hi: arr3(b.Max()), n: cnt})
+		return cnt
+	}
+	walk(tree)
+	return cells
 }
